@@ -176,6 +176,9 @@ func (fx *fctx) boundaryCheckArgs(st *State, n ast.Node, tag string, passed []*T
 			}
 		}
 		inv := fx.invTerm(st, d, tis[i])
+		if c, ok := fx.exitExempt[d.id]; ok {
+			inv = fx.e.ts.Or(c, inv)
+		}
 		fx.assert(st, "typeinv", tis[i].Struct+"@"+tag, inv, n, nil, "invariant of "+tis[i].Struct+" re-established for an object written in this frame")
 		st.assume(inv)
 	}
@@ -201,6 +204,9 @@ func (fx *fctx) beforeCall(st *State, recv *Value, args []*Value, n ast.Node) {
 		}
 	}
 	fx.boundaryCheckArgs(st, n, "call", passed, true)
+	for _, a := range args {
+		fx.publishSlice(st, a, n, "arg")
+	}
 	check := func(v *Value, what string) {
 		if v == nil || !v.Raw || v.Tm == nil {
 			return
@@ -226,6 +232,9 @@ func (fx *fctx) beforeCall(st *State, recv *Value, args []*Value, n ast.Node) {
 func (fx *fctx) afterCall(st *State, n ast.Node) {}
 
 func (fx *fctx) onEscape(st *State, v *Value, n ast.Node, tag string) {
+	if v != nil && v.Sl != nil && !fx.spec && strings.HasPrefix(tag, "exit") {
+		fx.publishSlice(st, v, n, "return")
+	}
 	if v == nil || !v.Raw || v.Tm == nil || fx.spec {
 		return
 	}
